@@ -44,6 +44,14 @@ def run(args):
                  "range": "span_to_range", "gli": "get_line_info (via format_error)"}
         for name, items in sorted(by_stream.items()):
             ctx.tie(f"model = real on {names.get(name, name)}", [i[0] for i in items], [i[1] for i in items])
+        # the terminal renderer's whole output for a span (underline length and caret padding included): the stream
+        # C11 ties, here for its positions
+        rcases, rmetas = ctx.run_harness("c11r")
+        metas = metas + rmetas
+        render = [c for c in rcases if c[0].startswith("c11 render")]
+        ctx.tie("model caretLine / getLineInfo = format_error (line, column, caret padding, underline length) for every span of every small document, multi-line and past-the-end spans included",
+                render, ctx.run_driver([c[0] for c in render]))
+        ctx.evaluations += len(render)
         # ---- oracle
         cache = {}
         hist = {"o2p": 0, "rt": 0, "p2o": 0, "range": 0, "gli": 0, "boundary_offsets": 0, "nonboundary_offsets": 0,
